@@ -110,6 +110,9 @@ func propDirect(t *rapid.T) {
 	}
 	rec.Class("direct_config=" + cls)
 	rec.Class("direct_witness=" + feat)
+	if pc := lockgen.PubkeysClass(c); pc != "" {
+		rec.Class("direct_pubkeys=" + pc)
+	}
 	if c.Malformed == "" {
 		rec.NonTrivial(fmt.Sprintf("direct|%s|%s|%v", cls, feat, elems))
 	} else {
@@ -178,9 +181,19 @@ func canonicalElems(c lockgen.Config) ([]lockgen.SigElem, bool) {
 func propSwapMelt(t *rapid.T) {
 	w := world.New(t, world.Config{CaseSeed: rapid.Uint64().Draw(t, "case_seed"), SeedIdx: rapid.IntRange(0, 5).Draw(t, "mint_seed"), FeeMode: lnmodel.FeeZero})
 	defer w.Close()
+	condMode := rapid.SampledFrom([]string{"independent", "independent", "same", "same", "same_mixed_flags"}).Draw(t, "conditions")
+	sameCond := condMode == "same"
 	nLocked := rapid.IntRange(1, 3).Draw(t, "n_locked")
 	nPlain := rapid.IntRange(0, 3).Draw(t, "n_plain")
-	sameCond := rapid.Bool().Draw(t, "same_condition")
+	mixed := condMode == "same_mixed_flags"
+	if mixed {
+		// aim at the SIG_ALL uniformity rule itself: several locked inputs and mostly nothing else that could get the
+		// request refused (no plain inputs, canonical input witnesses, properly signed outputs)
+		nLocked = max(nLocked, 2)
+		if rapid.IntRange(0, 3).Draw(t, "mixed_keep_plain") > 0 {
+			nPlain = 0
+		}
+	}
 	var locked []lockedInput
 	var base lockgen.Config
 	for i := 0; i < nLocked; i++ {
@@ -188,13 +201,17 @@ func propSwapMelt(t *rapid.T) {
 		c.Malformed = ""
 		if i == 0 {
 			base = c
-		} else if sameCond {
+		} else if condMode != "independent" {
 			n := c.Nonce
 			c = base
 			c.Nonce = n
+			if condMode == "same_mixed_flags" {
+				// same keys and threshold, but not every input carries SIG_ALL
+				c.Sigflag = rapid.SampledFrom([]string{"absent", "SIG_INPUTS", "SIG_ALL"}).Draw(t, "mixed_sigflag")
+			}
 		}
 		li := lockedInput{cfg: c, secret: c.Secret()}
-		if ce, ok := canonicalElems(c); ok && rapid.IntRange(0, 3).Draw(t, "canonical_witness") > 0 {
+		if ce, ok := canonicalElems(c); ok && (rapid.IntRange(0, 3).Draw(t, "canonical_witness") > 0 || mixed) {
 			li.elems, li.canon = ce, true
 		} else {
 			li.elems, _ = lockgen.GenWitnessElems(t, c, candidateKeys, "sig")
@@ -256,7 +273,15 @@ func propSwapMelt(t *rapid.T) {
 			sigAllAny = true
 		}
 	}
-	cls := fmt.Sprintf("e2e|%s|locked=%d|plain=%d|first_locked_pos=%d|sig_all=%v|same=%v", target, nLocked, nPlain, firstLockedPos, sigAllAny, sameCond)
+	cls := fmt.Sprintf("e2e|%s|locked=%d|plain=%d|first_locked_pos=%d|sig_all=%v|conditions=%s", target, nLocked, nPlain, firstLockedPos, sigAllAny, condMode)
+	if sigAllAny {
+		for _, li := range locked {
+			if li.cfg.Sigflag != "SIG_ALL" && condMode == "same_mixed_flags" {
+				rec.Class("e2e_sig_all_mixed_with_same_keys_without_flag")
+				break
+			}
+		}
+	}
 	rec.Class(fmt.Sprintf("e2e_target=%s_sig_all=%v", target, sigAllAny))
 	rec.NonTrivial(cls + fmt.Sprint(perm, locked[0].elems, locked[0].cfg.NSigs, locked[0].cfg.Locktime))
 	if target == "melt" {
@@ -279,9 +304,20 @@ func propSwapMelt(t *rapid.T) {
 		return
 	}
 	// swap: outputs and their witnesses
-	newOuts := w.MakeOutputs(world.Split(total), w.ActiveID)
+	amounts := world.Split(total)
+	if rapid.Bool().Draw(t, "many_outputs") {
+		ones := rapid.IntRange(1, 3).Draw(t, "extra_outputs")
+		amounts = world.Split(total - uint64(ones))
+		for i := 0; i < ones; i++ {
+			amounts = append(amounts, 1)
+		}
+	}
+	newOuts := w.MakeOutputs(amounts, w.ActiveID)
 	msgs := world.Msgs(newOuts)
 	outMode := rapid.SampledFrom([]string{"unsigned", "helper_lock_key", "helper_lock_key", "wrong_key", "one_unsigned", "threshold"}).Draw(t, "output_witness")
+	if mixed && rapid.IntRange(0, 3).Draw(t, "mixed_sign_outputs") > 0 {
+		outMode = "threshold"
+	}
 	var bs, ows []string
 	switch outMode {
 	case "helper_lock_key":
@@ -293,7 +329,9 @@ func propSwapMelt(t *rapid.T) {
 		msgs, _ = nut11.AddSignatureToOutputs(msgs, lockgen.K(lockgen.Foreign0).Priv)
 	case "one_unsigned":
 		msgs, _ = nut11.AddSignatureToOutputs(msgs, lockgen.K(lockgen.LockKey).Priv)
-		msgs[len(msgs)-1].Witness = ""
+		at := rapid.IntRange(0, len(msgs)-1).Draw(t, "unsigned_output")
+		msgs[at].Witness = rapid.SampledFrom([]string{"", "{}", `{"signatures":[]}`}).Draw(t, "unsigned_shape")
+		rec.Class(fmt.Sprintf("e2e_unsigned_output_first=%v_of_many=%v", at == 0, len(msgs) > 1))
 	case "threshold":
 		// sign every output with lock key and all co-signers of the first locked input
 		for i := range msgs {
